@@ -100,17 +100,19 @@ func (c *Ctx) Need(what string, v any) bool {
 
 // WorkerResult is what one (config, mutant) worker process emits.
 type WorkerResult struct {
-	Config   string         `json:"config"`
-	Mutant   string         `json:"mutant,omitempty"`
-	Stale    bool           `json:"stale,omitempty"`
-	Error    string         `json:"error,omitempty"`
-	Packages int            `json:"packages"`
-	Funcs    int            `json:"functions"`
-	SSAFuncs int            `json:"ssa_functions"`
-	CGNodes  int            `json:"callgraph_nodes"`
-	Obls     []Obligation   `json:"obligations"`
-	Rules    map[string]int `json:"rule_sites"`
-	WallS    float64        `json:"wall_s"`
+	Config       string         `json:"config"`
+	Mutant       string         `json:"mutant,omitempty"`
+	Stale        bool           `json:"stale,omitempty"`
+	Error        string         `json:"error,omitempty"`
+	Packages     int            `json:"packages"`
+	Funcs        int            `json:"functions"`
+	SSAFuncs     int            `json:"ssa_functions"`
+	CGNodes      int            `json:"callgraph_nodes"`
+	Absorbed     []string       `json:"absorbed_helpers,omitempty"` // functions outside the baseline analysed as part of their callers
+	InlineErrors []string       `json:"inline_errors,omitempty"`
+	Obls         []Obligation   `json:"obligations"`
+	Rules        map[string]int `json:"rule_sites"`
+	WallS        float64        `json:"wall_s"`
 }
 
 // KnownFinding is one entry of /verif/known_findings.json.
